@@ -27,9 +27,10 @@ struct Model {
 long double mref(double p) { return roundl(1.0L / (long double)p); }
 
 // value alphabet: mid-cell values so that truncation is unambiguous
-std::vector<double> alphabet(double p, bool big) {
+std::vector<double> alphabet(double p, bool big, bool zero = false) {
   std::vector<double> v = {0.5 * p, -1.5 * p, 7.5 * p, -1234.5 * p};
   if (big) v.push_back(99999999.5 * p);
+  if (zero) v.push_back(0.0);   // the value-initialised sample (sentinel collisions); S1b only, the BFS of S1 keeps five values
   return v;
 }
 
@@ -147,7 +148,7 @@ template <class A> void s1(vf::Ctx& c, size_t W, double p, bool isVar) {
 
 // ---- S1b: every operation sequence to a depth, no state de-duplication (robust against state the key does not see) -------
 template <class A> void s1b(vf::Ctx& c, size_t W, double p, bool isVar, int depth) {
-  std::vector<double> alpha = alphabet(p, true);
+  std::vector<double> alpha = alphabet(p, true, true);
   const int NOPS = (int)alpha.size() + 1;
   uint64_t total = 1; for (int i = 0; i < depth; ++i) total *= NOPS;
   std::vector<int> seq(depth);
@@ -306,7 +307,7 @@ std::string vf_describe(const std::string& tier) {
   o.str("S2_scripts", "cyclic small values; alternating-sign values of magnitude 9e7*precision (bound 0 and a reset at every position)");
   o.str("S2", th ? "every window 1..64, 10*W updates, deviation bound 1 (reset or outlier at any position), bound 2 for W<=8, W=12, W=64"
                  : "every window 1..64 bound 0; bound 1 for W<=8,16,63,64 (all precisions) and all W at precisions 1e-3,1e-6; bound 2 for W<=8");
-  o.str("S1b", th ? "every update/reset sequence of length 7 for windows 1..3, no state de-duplication" : "every update/reset sequence of length 5 for windows 1..3, no state de-duplication");
+  o.str("S1b", th ? "every update/reset sequence of length 7 for windows 1..3, no state de-duplication; alphabet = the five S1 values, exactly 0.0, reset" : "every update/reset sequence of length 5 for windows 1..3, no state de-duplication; alphabet = the five S1 values, exactly 0.0, reset");
   o.str("S3", "ring capacities 1..16, append(fresh tag)/clear(), BFS to fixpoint, states canonicalised by relative age");
   o.str("oracle", "availability <=> count>=W; mean of model window of truncated samples (long double); unbiased variance once full; bit-equality with a fresh object fed the model window");
   return o.done();
